@@ -93,6 +93,7 @@ def oracle(ctx, case, res, real):
                 ctx.failures.append(Failure("C03/not-a-slice", f"output record in {fn} is not an aligned slice of its input record",
                                             case_input(case), [name, s, q], [c[1] for c in cands]))
     check_documented_intervals(ctx, case, real)
+    marked_vs_trim(ctx, case, real)
 
 
 def check_documented_intervals(ctx, case, real):
@@ -149,6 +150,55 @@ def check_documented_intervals(ctx, case, real):
                                             f"--action={action} does not keep the documented interval", case_input(case), out[1], exp))
 
 
+def marked_vs_trim(ctx, case, real):
+    """mask / lowercase keep the length and write N / lower case exactly outside the part that --action=trim keeps:
+    compare with the same command line run with --action=trim (command lines with adapters and nothing else that changes reads)"""
+    argv = case["argv"]
+    action = opt(argv, "--action", "trim")
+    if action not in ("mask", "lowercase") or "error" in real:
+        return
+    allowed = {"--no-index", "-a", "-g", "-b", "-A", "-G", "-B", "--action", "--times", "-o", "-p", "--pair-adapters", "--revcomp", "-e", "-O",
+               "--no-indels", "--interleaved"}
+    toks = [t for t in argv if t.startswith("-") and not t.lstrip("-").replace(".", "").isdigit()]
+    if any(t not in allowed for t in toks):
+        return
+    import pipe
+    c2 = dict(case)
+    a2 = list(argv)
+    a2[a2.index("--action") + 1] = "trim"
+    c2["argv"] = a2
+    _, trim = pipe.run_real(c2)
+    if "error" in trim:
+        return
+    tr = {}
+    for fn, side, recs in pipeprop.output_roles(c2, trim):
+        for r in recs:
+            tr[(side, rid(r[0]))] = r
+    for fn, side, recs in pipeprop.output_roles(case, real):
+        for name, s, q in recs:
+            t = tr.get((side, rid(name)))
+            if t is None:
+                continue
+            kept = t[1]
+            ok = False
+            up = s.upper() if action == "lowercase" else s
+            for a in range(0, len(s) - len(kept) + 1):
+                mid = s[a:a + len(kept)]
+                if action == "mask":
+                    good = mid == kept and set(s[:a]) <= {"N"} and set(s[a + len(kept):]) <= {"N"}
+                else:
+                    # a read without match is left as it was (or upper-cased as a whole); with a match the kept part is upper-cased
+                    good = (mid.upper() == kept.upper() and s[:a] == s[:a].lower() and s[a + len(kept):] == s[a + len(kept):].lower()
+                            and (len(s) == len(kept) or mid == kept.upper()))
+                if good and (q is None or t[2] is None or q[a:a + len(kept)] == t[2]):
+                    ok = True
+                    break
+            if not ok:
+                ctx.failures.append(Failure(f"C03/{action}-outside-trim-interval", f"--action={action} changed bases inside the part that --action=trim keeps "
+                                            "(or left bases unchanged outside it)", case_input(case), [name, s], dict(trim_keeps=kept)))
+            ctx.count("marked-vs-trim-checked")
+
+
 def nontrivial(case, real):
     return any(len(r[1]) for f in real.get("files", {}).values() for r in f) and (real.get("with_adapters1", 0) + real.get("with_adapters2", 0) > 0)
 
@@ -170,6 +220,24 @@ def run(ctx):
             argv2 = ["--no-index", "-a", "a0=AAAGGGCCC", "--action", action, "-o", "{dir}/o1.fastq"]
             r1, _ = pipe.gen_reads(ctx.rng, 5, ["AAAGGGCCC"], [], False)
             directed.append(dict(argv=argv2, paired=False, reads1=r1, reads2=None, with_qual=True, interleaved_in=False))
+    comp = str.maketrans("ACGT", "TGCA")
+    for _ in range(ctx.scale(25, 300)):
+        X, Y = "AAAGGGCCC", "TTTGGGAAC"
+        action = ctx.rng.choice(["mask", "lowercase", "trim", "retain"])
+        r1, r2 = [], []
+        for i in range(5):
+            body = pipe.rs(ctx.rng, ctx.rng.randint(4, 12))
+            k = ctx.rng.random()
+            s1 = body + (Y + pipe.rs(ctx.rng, 3) if k < 0.4 else "") + X + pipe.rs(ctx.rng, ctx.rng.randint(0, 4)) if k < 0.8 else body
+            body2 = pipe.rs(ctx.rng, ctx.rng.randint(4, 12))
+            k = ctx.rng.random()
+            s2 = body2 + (X + pipe.rs(ctx.rng, 2) if k < 0.4 else "") + Y + pipe.rs(ctx.rng, ctx.rng.randint(0, 4)) if k < 0.8 else body2
+            r1.append((f"r{i}", s1, "I" * len(s1)))
+            r2.append((f"r{i}", s2, "5" * len(s2)))
+        argv = ["--no-index", "-a", "a0=" + X, "-A", "b0=" + Y, "--revcomp", "--action", action, "-o", "{dir}/o1.fastq", "-p", "{dir}/o2.fastq"]
+        directed.append(dict(argv=argv, paired=True, reads1=r1, reads2=r2, with_qual=True, interleaved_in=False))
+        argv = ["--no-index", "-a", "a0=" + X, "-g", "a1=" + Y, "--times", "2", "--action", action if action != "retain" else "mask", "-o", "{dir}/o1.fastq"]
+        directed.append(dict(argv=argv, paired=False, reads1=r1, reads2=None, with_qual=True, interleaved_in=False))
     for case, res, real, model in pipe.run_cases(ctx, directed):
         oracle(ctx, case, res, real)
 
